@@ -186,7 +186,9 @@ CLAIMS = {
              "kernel-checked on regenerated data. At the IBAN level (`german_iban_level`, `live_german_iban`, worked "
              "out for method 00 in `live_german_iban_00`): a German text valid without national validation whose "
              "bank's first registry entry names a registered method is accepted with national validation exactly "
-             "when the engine with that method's parameters accepts the ten account digits at positions 12..21. "
+             "when the engine with that method's parameters accepts the ten account digits at positions 12..21; "
+             "composed with each method theorem in C07IbanAll (`live_german_iban_xx'` for all 39 methods: accepted "
+             "exactly when the published rule of method xx holds for those digits). "
              "Constants inside hook bodies (which the class parameters do not show) "
              "are tied by `live_probes_reproduced`: ~10,500 recorded compute/validate calls per run (unit vectors, "
              "every check digit of seeded random numbers, numbers around every integer literal of germany.py) "
